@@ -299,6 +299,10 @@ func runC04(c *Ctx) {
 		}
 	}
 
+	c.Rule("C04-D7", "the replay filter honours the selection (shared with C08-D3): shouldIncludePacket — which decides whether a logged broadcast is replayed to a recovering session — tests the target rooms (or none "+
+		"given) and tests EVERY room of the session against the exclusions; an exclusion match can never yield true. A broadcast that excluded a socket must not come back to it through recovery", 3)
+	replayFilterRule(c, "C04-D7")
+
 	c.Rule("C04-D6", "modifiers carry the whole selection over: every BroadcastOperator method that returns a new operator (To, In, Except, Compress, Local) starts from a copy of its receiver — the result is a whole-struct copy of *b, "+
 		"or every field of the receiver is read to build it — so a flag modifier applied after Except keeps the excluded rooms and one applied after To keeps the target rooms", 5)
 	{
